@@ -22,6 +22,10 @@ open ClockBound.Threads
 @[rs_eval] theorem ext_litFallback : DictThreads.ext.litFallback = none := rfl
 @[rs_eval] theorem ext_errFrom (r v) : DictThreads.ext.errFrom r v = none := rfl
 
+-- calls of functions that declare a `&mut T` parameter (`take_mailbox(mailbox: &mut MailBox<..>, ..)` once it is
+-- factored out): the core's by-reference call rule, whose equations each group registers for itself
+rs_register_eqns callDeclRef
+
 attribute [rs_eval] DictThreads.path DictThreads.call DictThreads.method DictThreads.refMut
   DictThreads.ask DictThreads.askDone DictThreads.macroCall DictThreads.hmGet DictThreads.hashMapValue DictThreads.rxValue DictThreads.txValue
   DictThreads.mailboxValue DictThreads.chanValue
